@@ -23,6 +23,8 @@ namespace osmium {
             explicit operator bool() const noexcept { return true; }
             std::size_t committed() const noexcept { return m_committed; }
             void push_back(const Item&) { ++m_committed; }
+            void add_item(const Item&) {}
+            void commit() { ++m_committed; }
             friend void swap(Buffer& a, Buffer& b) noexcept { std::swap(a.m_committed, b.m_committed); }
         };
 
@@ -93,7 +95,7 @@ namespace osmium {
                     try {
                         m_buffer.push_back(item);
                     } catch (const osmium::buffer_is_full&) {
-                        m_buffer.push_back(item);  // writer-full-buffer-flushed-before-retry
+                        m_buffer.add_item(item);  // writer-full-buffer-flushed-before-retry, writer-item-committed (no commit)
                         do_flush();
                     }
                 });
